@@ -5,6 +5,7 @@ import (
 	"os"
 	"runtime"
 	"strings"
+	"sync"
 
 	"simrt"
 
@@ -181,14 +182,32 @@ func bannedOption(banned []string) []core.Option {
 	if len(banned) == 0 {
 		return nil
 	}
-	var dd []directive.Enumeration
+	// One option VALUE per banned keyword, created once per process and handed to every build
+	// that bans it - the way a server holds its configuration. A build that bans two keywords
+	// gets two option values. (An option that keeps state of its own between the builds it is
+	// given to is what this exposes.)
+	var out []core.Option
 	for _, b := range banned {
-		if de, err := directive.NewDirectiveType(b); err == nil {
-			dd = append(dd, de)
+		de, err := directive.NewDirectiveType(b) // code under test: not under the harness lock
+		if err != nil {
+			continue
 		}
+		banOptMu.Lock()
+		opt, ok := banOpts[b]
+		if !ok {
+			opt = core.WithBannedDirectives(de)
+			banOpts[b] = opt
+		}
+		banOptMu.Unlock()
+		out = append(out, opt)
 	}
-	return []core.Option{core.WithBannedDirectives(dd...)}
+	return out
 }
+
+var (
+	banOptMu sync.Mutex
+	banOpts  = map[string]core.Option{}
+)
 
 // BuildPath builds a project whose root is read from disk.
 func BuildPath(root string, banned ...string) *Outcome {
